@@ -309,6 +309,8 @@ impl Json {
             compiler.compile_statement_list(script.statements(), true, false);
             Gc::new(compiler.finish())
         };
+        #[cfg(boa_verif)]
+        crate::verif::emit_tree(&code_block, "json");
 
         let realm = context.realm().clone();
 
